@@ -195,6 +195,9 @@ type Refresh struct {
 	AccessID string
 	Dead     bool // rotated, revoked or session terminated
 	Exp      time.Time
+	// Next is the token this one was rotated into. With Store.PersistScopes the grant is one record that is re-keyed on
+	// rotation (as in the example storage): writing the scopes of the old key writes the record the new key names.
+	Next *Refresh
 }
 
 // refreshReq is what TokenRequestByRefreshToken hands to the library. With Store.PersistScopes the request
@@ -214,7 +217,9 @@ func (r *refreshReq) GetSubject() string     { return r.r.Subject }
 func (r *refreshReq) SetCurrentScopes(sc []string) {
 	if r.s != nil && r.s.PersistScopes {
 		r.s.scopeMu.Lock()
-		r.r.Scopes = append([]string(nil), sc...)
+		for x := r.r; x != nil; x = x.Next {
+			x.Scopes = append([]string(nil), sc...)
+		}
 		r.s.scopeMu.Unlock()
 		return
 	}
@@ -629,6 +634,11 @@ func (s *Store) CreateAccessAndRefreshTokens(ctx context.Context, req op.TokenRe
 		Scopes: orig, AuthTime: authTime, AMR: amr, Exp: time.Now().Add(s.RefreshLifetime)}
 	t := s.newAccess(req, rt.Token)
 	rt.AccessID = t.ID
+	if current != "" {
+		if old := s.Refreshes[current]; old != nil {
+			old.Next = rt
+		}
+	}
 	s.Refreshes[rt.Token] = rt
 	return t.ID, rt.Token, t.Exp, nil
 }
